@@ -164,7 +164,7 @@ def build_native(harness, contact=None, dynamic=None, polar=None, extra_flags=()
             return o
         with ThreadPoolExecutor(16) as ex:
             objs = list(ex.map(one, srcs))
-        run([GXX, '-fopenmp', '-o', os.path.join(tmp, 'replay')] + objs + [lib, '-lstdc++fs'])
+        run([GXX, '-fopenmp'] + ([opt] if opt and opt.startswith('-fsanitize') else []) + ['-o', os.path.join(tmp, 'replay')] + objs + [lib, '-lstdc++fs'])
         for o in objs: os.remove(o)
         os.rename(tmp, d)
         prune_cache()
